@@ -893,8 +893,9 @@ int cp_rsa_ver(uint8_t *sig, size_t sig_len, const uint8_t *msg, size_t msg_len,
 		return 0;
 	}
 
-	/* A signature is an octet string of exactly the length of the modulus. */
-	if (sig_len != bn_size_bin(pub->crt->n)) {
+	/* A signature is an octet string of exactly the length of the modulus, and a
+	 * message that is already hashed is a digest of the configured function. */
+	if (sig_len != bn_size_bin(pub->crt->n) || (hash && msg_len != RLC_MD_LEN)) {
 		RLC_FREE(h1);
 		RLC_FREE(h2);
 		return 0;
